@@ -1,3 +1,3 @@
-import BioCantor.Driver.Main
+import BioCantor.Driver.SpecChunk
 import BioCantor.Driver.Chunk
-def main : IO Unit := BioCantor.Driver.runModel BioCantor.Driver.Chunk.ops
+def main : IO Unit := BioCantor.Driver.SpecChunk.parMain false BioCantor.Driver.Chunk.ops
